@@ -341,8 +341,8 @@ pub fn messaging_all(thorough: bool) -> Vec<Scenario> {
 }
 
 pub const FAMILIES: &[&str] = &[
-    "pipe", "fanout", "fanout_race", "reqrep", "await_chain", "late_await", "spawn_storm", "fanin", "typed_mail", "bin", "select_mix",
-    "res", "fail", "refs",
+    "pipe", "fanout", "fanout_race", "reqrep", "await_chain", "late_await", "spawn_storm", "fanin", "typed_mail", "bin", "select_mix", "fail", "res",
+    "refs",
 ];
 
 pub fn static_family(name: &str) -> &'static str {
@@ -507,4 +507,122 @@ pub fn select_mix_all(thorough: bool) -> Vec<Scenario> {
         v.push(select_mix(&pair, true));
     }
     v
+}
+
+/// Failure scenarios (C15). `expect` lists `path=rendering` (exact) and `path==path` (same
+/// result) constraints separated by `; `; `ERR` alone means "some runtime error".
+pub fn fail_all() -> Vec<Scenario> {
+    let mk = |id: &str, confluent: bool, src: &str, expect: &str| Scenario {
+        id: format!("fail_{}", id),
+        family: "fail",
+        source: src.to_string(),
+        confluent,
+        io: false,
+        expect: Some(expect.to_string()),
+    };
+    let div = "InvalidArgument(\"Division by zero\")";
+    vec![
+        mk("child_awaited", true,
+           "c = @{ [1, 0] __integer_divide__ },\ng = @{ 5 },\na = !g,\n!c",
+           &format!("r.0=ERR {d}; r==r.0; r.1=5", d = div)),
+        mk("child_not_awaited", true,
+           "c = @{ [1, 0] __integer_divide__ },\ng = @{ 5 },\n!g",
+           &format!("r.0=ERR {d}; r=5; r.1=5", d = div)),
+        mk("await_before", true,
+           "c = @{ !'int =x, [1, x] __integer_divide__ },\nw = @{ !c },\n0 c,\n!w",
+           &format!("r.0=ERR {d}; r.1==r.0; r==r.0", d = div)),
+        mk("await_after", true,
+           "c = @{ [1, 0] __integer_divide__ },\nd = @{ !'int },\n5 d,\nx = !d,\n!c",
+           &format!("r.0=ERR {d}; r.1=5; r==r.0", d = div)),
+        mk("two_awaiters", true,
+           "'t = (@-> 'int)\nc = @{ !'int =x, [1, x] __integer_divide__ },\nw1 = &c @'t { =p => !p },\nw2 = &c @'t { =p => !p },\ng = @{ 5 },\n0 c,\n!g",
+           &format!("r.0=ERR {d}; r.1==r.0; r.2==r.0; r=5; r.3=5", d = div)),
+        mk("race_with_failed", false,
+           "col = @{ !'int },\nst = @{ !'int =x, [1, x] __integer_divide__ col },\n0 st,\n! [col, st]",
+           &format!("r.1=ERR {d}; r==r.1; r.0=<running>", d = div)),
+        mk("filter_send", true,
+           "p1 = @{ !'int },\np2 = @{ ! [#'int { 42 p1, Ok }] },\n10 p2,\n!p2",
+           "r.1=ERR OperationNotAllowed { operation: \"send\", context: \"receive function\" }; r==r.1; r.0=<running>"),
+        mk("filter_spawn", true,
+           "p = @{ ! [#'int { @{ 42 }, Ok }] },\n10 p,\n!p",
+           "r.0=ERR OperationNotAllowed { operation: \"spawn\", context: \"receive function\" }; r==r.0"),
+        mk("filter_select", true,
+           "p = @{ ! [#'int { !'int, Ok }] },\n10 p,\n11 p,\n!p",
+           "r.0=ERR; r==r.0"),
+        mk("send_to_failed", true,
+           "c = @{ !'int =x, [1, x] __integer_divide__ },\n0 c,\n5 c,\n6 c,\ng = @{ 9 },\n!g",
+           &format!("r.0=ERR {d}; r=9; r.1=9", d = div)),
+        mk("slice_range", true,
+           "c = @{ [0x0102, 1, 9] __binary_slice__ },\ng = @{ 5 },\na = !g,\n!c",
+           "r.0=ERR; r==r.0; r.1=5"),
+        mk("chain_of_awaiters", true,
+           "p = @{ q = @{ c = @{ [1, 0] __integer_divide__ }, !c }, !q },\ng = @{ 5 },\n!g,\n!p",
+           &format!("r.0.0.0=ERR {d}; r.0.0==r.0.0.0; r.0==r.0.0.0; r==r.0.0.0; r.1=5", d = div)),
+        mk("failed_and_ok_race", false,
+           "c = @{ [1, 0] __integer_divide__ },\ng = @{ 5 },\n! [g, c]",
+           &format!("r.0=ERR {d}; r.1=5; r=5 || r==r.0", d = div)),
+    ]
+}
+
+/// Resource scenarios (C14) over the instrumented in-memory file backend.
+pub fn res_all() -> Vec<Scenario> {
+    let mk = |id: &str, src: &str| Scenario {
+        id: format!("res_{}", id),
+        family: "res",
+        source: src.to_string(),
+        confluent: false,
+        io: true,
+        expect: None,
+    };
+    let open = "[0x61, 0, 0] __file_open__";
+    vec![
+        // child opens, writes, reads back, terminates; parent awaits it
+        mk("child_awaited", &format!(
+            "c = @{{ f = {open}, [f, 0, 0x0102] __file_write__, [f, 0, 2] __file_read__ }},\n!c", open = open)),
+        // child opens and terminates; nobody ever awaits it
+        mk("child_unawaited", &format!(
+            "c = @{{ f = {open}, [f, 0, 0x0102] __file_write__ }},\ng = @{{ 5 }},\n!g", open = open)),
+        // the entry process itself owns a resource when it terminates
+        mk("entry_owner", &format!(
+            "f = {open},\n[f, 0, 0x0102] __file_write__", open = open)),
+        // handle sent in a message; the recipient uses it; the sender may no longer
+        mk("send", &format!(
+            "'rd = Read[\\File]\nr = @{{ !#'rd {{ =Read[f] => [f, 0, 2] __file_read__ }} }},\nf = {open},\n[f, 0, 0x0a0b] __file_write__,\nRead[f] r,\n!r", open = open)),
+        mk("send_then_use", &format!(
+            "'hd = Hold[\\File]\nh = @{{ !#'hd =m, !'int }},\nf = {open},\nHold[f] h,\n[f, 0, 0x01] __file_write__", open = open)),
+        mk("send_use_after_recipient_done", &format!(
+            "'rd = Read[\\File]\nr = @{{ !#'rd {{ =Read[f] => [f, 0, 0x07] __file_write__ }} }},\nf = {open},\nRead[f] r,\n!r,\n[f, 0, 2] __file_read__", open = open)),
+        // handle nested in a tuple inside the message
+        mk("send_nested", &format!(
+            "'rd = Read[[\\File, 'int]]\nr = @{{ !#'rd {{ =Read[[f, n]] => [f, 0, 0x07] __file_write__ }} }},\nf = {open},\nRead[[f, 3]] r,\n!r", open = open)),
+        // handle passed as the spawn argument
+        mk("spawn_arg", &format!(
+            "f = {open},\nu = #\\File {{ [~, 0, 0x0c] __file_write__ }},\nc = f @u,\n!c", open = open)),
+        // handle captured by the spawned function
+        mk("spawn_capture", &format!(
+            "f = {open},\nc = @{{ [f, 0, 0x0d] __file_write__ }},\n!c", open = open)),
+        mk("spawn_capture_then_use", &format!(
+            "f = {open},\nc = @{{ !'int, [f, 0, 0x0d] __file_write__ }},\n[f, 0, 0x0e] __file_write__", open = open)),
+        // handle captured in a closure that is sent in a message; the recipient calls it
+        mk("send_closure", &format!(
+            "f = {open},\ng = #'int {{ [f, 0, 0x0d] __file_write__ }},\nc = @{{ !#(#'int -> 'int) =h, 1 h }},\n&g c,\n!c", open = open)),
+        mk("send_closure_then_use", &format!(
+            "f = {open},\ng = #'int {{ [f, 0, 0x0d] __file_write__ }},\nc = @{{ !#(#'int -> 'int) =h, !'bin }},\n&g c,\n[f, 0, 0x01] __file_write__", open = open)),
+        // handle left in the mailbox of a process that terminates without receiving it
+        mk("left_in_mailbox", &format!(
+            "'hd = Hold[\\File]\nh = @{{ !'int =x, !#'hd, x }},\nf = {open},\nHold[f] h,\n5 h,\n!h", open = open)),
+        mk("never_received", &format!(
+            "'hd = Hold[\\File]\nh = @{{ !'int =x, x {{ =0 => {{ !#'hd, 0 }} | 9 }} }},\nf = {open},\nHold[f] h,\n5 h,\n!h", open = open)),
+        // two resources, two owners, owner awaited twice
+        mk("two_resources", &format!(
+            "a = @{{ f = {open}, [f, 0, 0x01] __file_write__ }},\nb = @{{ g = [0x62, 0, 0] __file_open__, [g, 0, 0x02] __file_write__ }},\nx = !a,\ny = !b,\nz = !a,\n[x, y, z]", open = open)),
+        mk("two_awaiters", &format!(
+            "'t = (@-> 'int)\nc = @{{ f = {open}, !'int =x, [f, 0, 0x01] __file_write__ }},\nw = &c @'t {{ =p => !p }},\n1 c,\na = !c,\nb = !w,\n[a, b]", open = open)),
+        // explicit close by the owner, then owner terminates
+        mk("explicit_close", &format!(
+            "c = @{{ f = {open}, f __file_close__, 3 }},\n!c", open = open)),
+        // handle sent to a process that has already terminated
+        mk("send_to_dead", &format!(
+            "'hd = Hold[\\File]\nh = @{{ !'int =x, x {{ =0 => {{ !#'hd, 0 }} | 9 }} }},\n5 h,\n!h,\nf = {open},\nHold[f] h,\ng = @{{ 1 }},\n!g", open = open)),
+    ]
 }
